@@ -18,7 +18,7 @@ from ..util import Abort, Info, Raised, cm_enter, cm_exit, expect, expect_eq, im
 
 ID = "C18"
 LEVEL = "exploration"
-BUDGET = {"quick": 8000, "thorough": 500000}
+BUDGET = {"quick": 8000, "thorough": 300000}
 RULE = (
     "case = a valid history on one target (HexaryTrie prune on/off and inside/outside "
     "squash_changes; BinaryTrie; SparseMerkleTree; SparseMerkleProof; HexaryTrieFog; "
